@@ -193,4 +193,104 @@ theorem C01_code_force_quadratic (analyticDeriv : Callable → Rat → Rat) (f :
   simp only [hf, Bool.false_eq_true, if_false]
   rw [C01_numderiv_quadratic a b c r h hh]
 
+/-! ## The code itself: the LAMMPS writer regenerated from the source
+
+`Atsim.Gen.Logic.lammps_write_single / lammps_write_potentials` are `_lammps_writeTABLE._writeSinglePotential / writePotentials` as produced by
+`translator/py2lean_logic.py` on every run: ONE token per `print`, holding the format text of the source and its arguments in the order the format uses them.
+`renderBlock` is how the model's block reads in the same tokens.  `C01_code_writer`: for every list of potentials, every `minr`, `maxr`, every row count and
+whatever the stream already holds, the code emits exactly the model's table - so `C01_holds` / `C01_determined` are theorems about the writer as written now
+(loop bounds, the row formula, which value goes into which column, the title and header arguments, the `%.8f` precision, the separator between blocks). -/
+namespace Writer
+open Atsim.Gen.Logic
+
+def toRec (p : Pot) : PotRec := ⟨p.a, p.b, p.fid⟩
+
+def slotOV (what : String) : Slot → OV
+  | .val fid x => .fn what fid x
+  | .zero => .num 0
+
+def renderRow (row : LRow) : Tok :=
+  ⟨"%s %.8f %.8f %.8f\n", [.int row.n, .num row.r, slotOV "energy" row.e, slotOV "force" row.f]⟩
+
+def renderBlock (b : LBlock) : List Tok :=
+  [⟨"%s-%s\n", [.str b.a, .str b.b]⟩, ⟨"N %d R %.8f %.8f\n", [.int b.N, .num b.lo, .num b.hi]⟩, ⟨"\n", []⟩] ++ b.rows.map renderRow
+
+/-- the row the loop body emits for the loop variable `n` -/
+def codeRow (pot : PotRec) (minr maxr : Rat) (gridPoints n : Int) : Tok :=
+  let r : Rat := minr + (((n - 1 : Int) : Rat) * (maxr - minr)) / ((gridPoints : Rat) - 1)
+  ⟨"%s %.8f %.8f %.8f\n", [.int n, .num r, energyOf pot r, forceOf pot r]⟩
+
+theorem loop_eq (pot : PotRec) (minr maxr : Rat) (gridPoints : Int) (out : List Tok) :
+    ∀ (xs : List Int) (sb : List Tok),
+      lammps_write_single_loop1 gridPoints maxr minr out pot sb xs = out ++ (sb ++ xs.map (codeRow pot minr maxr gridPoints)) := by
+  intro xs
+  induction xs with
+  | nil => intro sb; simp [lammps_write_single_loop1]
+  | cons n ns ih =>
+    intro sb
+    simp only [lammps_write_single_loop1, ih, List.map_cons, codeRow]
+    simp [List.append_assoc]
+
+theorem codeRow_eq (p : Pot) (minr maxr : Rat) (N k : Nat) :
+    codeRow (toRec p) minr maxr (N : Int) ((1 : Int) + (k : Int)) =
+      renderRow ⟨k + 1, rowR minr maxr N (k + 1), .val p.fid (rowR minr maxr N (k + 1)), .val p.fid (rowR minr maxr N (k + 1))⟩ := by
+  have hr : minr + ((((1 : Int) + (k : Int) - 1 : Int) : Rat) * (maxr - minr)) / (((N : Int) : Rat) - 1) = rowR minr maxr N (k + 1) := by
+    unfold rowR; push_cast; ring
+  simp only [codeRow, renderRow, slotOV, energyOf, forceOf, toRec, hr]
+  congr 2
+  push_cast; ring
+
+end Writer
+
+open Atsim.Gen.Logic in
+/-- **code tie**: `_writeSinglePotential` appends exactly the model's block to the stream -/
+theorem C01_code_write_single (p : Pot) (minr maxr : Rat) (N : Nat) (out : List Tok) :
+    lammps_write_single (Writer.toRec p) minr maxr (N : Int) out = out ++ Writer.renderBlock (lammpsSingle p minr maxr N) := by
+  unfold lammps_write_single
+  rw [Writer.loop_eq]
+  congr 1
+  simp only [Writer.renderBlock, lammpsSingle, Writer.toRec, intRange, List.nil_append, List.map_map]
+  have hN : ((N : Int) + 1 - 1).toNat = N := by omega
+  simp only [hN, List.cons_append, List.nil_append, List.cons.injEq, true_and]
+  apply List.map_congr_left
+  intro k _
+  exact Writer.codeRow_eq p minr maxr N k
+
+
+namespace Writer
+open Atsim.Gen.Logic
+
+theorem potentials_loop_eq (minr maxr : Rat) (N : Nat) (out : List Tok) (orig : List PotRec) :
+    ∀ (ps : List Pot) (lines : List (List Tok)),
+      lammps_write_potentials_loop1 (N : Int) maxr minr out orig lines (ps.map toRec) =
+        out ++ joinStreams (lines ++ ps.map fun p => renderBlock (lammpsSingle p minr maxr N)) := by
+  intro ps
+  induction ps with
+  | nil => intro lines; simp [lammps_write_potentials_loop1]
+  | cons p ps ih =>
+    intro lines
+    simp only [List.map_cons, lammps_write_potentials_loop1, C01_code_write_single, List.nil_append, ih, List.append_assoc, List.cons_append]
+
+end Writer
+
+open Atsim.Gen.Logic in
+/-- **code tie (whole table)**: for every list of potentials, every `minr`, `maxr` and row count, `writePotentials` appends to the stream the model's blocks
+    in the order of the list, separated by `os.linesep` - nothing else, nothing missing -/
+theorem C01_code_write_potentials (pots : List Pot) (minr maxr : Rat) (N : Nat) (out : List Tok) :
+    lammps_write_potentials (pots.map Writer.toRec) minr maxr (N : Int) out =
+      out ++ joinStreams (pots.map fun p => Writer.renderBlock (lammpsSingle p minr maxr N)) := by
+  unfold lammps_write_potentials
+  rw [Writer.potentials_loop_eq]
+  simp
+
+open Atsim.Gen.Logic in
+/-- **code tie (the tabulation class)**: with the arguments `LAMMPS_PairTabulation.write` passes (`dr`, `cutoff`, `nr - 1`: kernel `lammps_args`, theorem
+    `C01_kernel_*`) the writer emits `lammpsTable pots cutoff nr`, the table `C01_holds` is about -/
+theorem C01_code_table (pots : List Pot) (cut : Rat) (nr : Nat) (out : List Tok) :
+    lammps_write_potentials (pots.map Writer.toRec) (pairDr cut nr) cut ((nr - 1 : Nat) : Int) out =
+      out ++ joinStreams ((lammpsTable pots cut nr).map Writer.renderBlock) := by
+  rw [C01_code_write_potentials]
+  simp [lammpsTable, List.map_map, Function.comp_def]
+
+
 end Atsim.C01
